@@ -1,4 +1,6 @@
 import RV.C12.Lemmas
+import RV.C12.PLemmas
+import RV.C12.N3Lemmas
 /-
   C12 — "Parsing only adds, and blank nodes of separate documents never merge."
 
@@ -170,6 +172,7 @@ theorem fresh_graphs_iso : Statement_fresh_graphs_iso := by
     | iri n => rfl
     | lit n => rfl
     | bn b => exact absurd rfl (hinto b)
+    | skol n => rfl
   refine ⟨transport (sigmaOf ⟨[], f₁⟩ .remap into doc) (sigmaOf ⟨[], f₂⟩ .remap into doc) (Doc.labels doc), ?_, ?_⟩
   · intro b b' ⟨q, hq, hn⟩ ⟨q', hq', hn'⟩ e
     rcases (hq1 q).mp hq with h | h
@@ -251,6 +254,296 @@ theorem verbatim_not_merge : ¬ Statement_parse_is_merge := by
 theorem parse_is_merge_partial : Statement_parse_is_merge_remap := parse_is_merge
 theorem parse_is_merge_witness : ¬ Statement_parse_is_merge := verbatim_not_merge
 
+
+/-! ### Round g — the parsers one by one (`Parsers.lean`), and the options that change label handling -/
+
+/-- label `l` occurs in one of the documents -/
+def HasAny (docs : List (T × Doc)) (l : Lbl) : Prop := ∃ x ∈ docs, Doc.has x.2 l
+
+/-- Parser `p` called with options `c` (its own node function, as coded; an empty label dict at the start):
+    the labels of the document go to nodes by ONE injective renaming whose values are not nodes of the old
+    content — the target is the RDF merge of the old content and the statements the parser keeps
+    (all of them, except JSON-LD's blank-node-predicate statements when `generalized_rdf` is off). -/
+def Statement_labels_one_injective_renaming (p : Parser) (c : CallOpts) : Prop :=
+  ∀ (d : DS) (into : T) (doc : Doc), WF d → IntoOK d into →
+    IsMerge d into (keptDoc (genOf p c) doc) (parseWith p c d [] into doc).1.quads
+
+/-- every parser, every option, any label dict handed in: every old quad stays (per graph: a quad carries its
+    graph, `into` = default graph, IRI-named or blank-node-named graph), and whatever is new is the image of a
+    kept statement of the document under one assignment of its labels -/
+def Statement_parse_only_adds_every_parser : Prop :=
+  ∀ (p : Parser) (c : CallOpts) (d : DS) (m0 : LMap) (f0 : Nat) (into : T) (doc : Doc), MapInv f0 ⟨d.fresh, m0⟩ →
+    (∀ q, q ∈ d.quads → q ∈ (parseWith p c d m0 into doc).1.quads) ∧
+    (∃ σ : Lbl → Nat, ∀ q, q ∈ (parseWith p c d m0 into doc).1.quads →
+      q ∈ d.quads ∨ q ∈ renameO (loptsOf p c) σ into doc)
+
+/-- … and the freshness invariant survives every such call -/
+def Statement_wf_preserved_every_parser : Prop :=
+  ∀ (p : Parser) (c : CallOpts) (d : DS) (m0 : LMap) (f0 : Nat) (into : T) (doc : Doc), MapInv f0 ⟨d.fresh, m0⟩ →
+    WF d → IntoOK d into → WF (parseWith p c d m0 into doc).1
+
+/-- `bnode_context=ctx` (N-Triples, N-Quads; also one N-Quads parser object used for several calls): the merge is
+    replaced by exactly the sharing the caller asked for.  For a dict `ctx` whose entries are distinct existing ids,
+    and any sequence of calls handing it on: there is ONE assignment σ for all the documents, it agrees with the
+    entries the caller put in, it is injective over the labels of all the documents together (same label ⇔ same
+    node, also across documents), labels the dict did not have go to nodes that are not in the old content, the
+    target is the old content plus every document renamed by σ, and afterwards the dict holds σ. -/
+def Statement_caller_shared_context_shares_exactly : Prop :=
+  ∀ (d : DS) (ctx : LMap) (f0 : Nat) (docs : List (T × Doc)), WF d → MapInv f0 ⟨d.fresh, ctx⟩ →
+    (∀ x ∈ docs, IntoOK d x.1) →
+    ∃ σ : Lbl → Nat,
+      (∀ l b, alookup ctx l = some b → σ l = b) ∧
+      (∀ l l', HasAny docs l → HasAny docs l' → σ l = σ l' → l = l') ∧
+      (∀ l, HasAny docs l → alookup ctx l = none → ¬ HasNode d.quads (σ l) ∧ ∀ x ∈ docs, x.1 ≠ .bn (σ l)) ∧
+      SetEq (parseShared ⟨.remap, false, true⟩ d ctx docs).1.quads
+            (d.quads ++ docs.flatMap (fun x => rename σ x.1 x.2)) ∧
+      (∀ l, HasAny docs l → alookup (parseShared ⟨.remap, false, true⟩ d ctx docs).2 l = some (σ l))
+
+/-- `preserve_bnode_ids=True` (RDF/XML, TriX): the parser is the `BNode(label)` parser -/
+def Statement_preserve_bnode_ids_is_verbatim : Prop :=
+  ∀ (p : Parser) (c : CallOpts) (d : DS) (into : T) (doc : Doc), (p = .xml ∨ p = .trix) → c.preserve = true →
+    (parseWith p c d [] into doc).1 = parseInto d .verbatim into doc
+
+/-- `skolemize=True` (N-Triples, N-Quads, JSON-LD, hextuples): no blank node is made — a blank node of a new quad
+    can only be the graph parsed into — and a label's IRI depends on the label alone (σ is the identity on labels) -/
+def Statement_skolemize_no_blank_nodes : Prop :=
+  ∀ (p : Parser) (c : CallOpts) (d : DS) (into : T) (doc : Doc),
+    (p = .nt ∨ p = .nquads ∨ p = .jsonld ∨ p = .hext) → c.skolemize = true →
+    ∃ σ : Lbl → Nat, (∀ n, σ (.named n) = n) ∧
+      (∀ q, q ∈ (parseWith p c d [] into doc).1.quads ↔ q ∈ d.quads ∨ q ∈ renameO (loptsOf p c) σ into doc) ∧
+      (∀ q b, q ∈ renameO (loptsOf p c) σ into doc → Quad.hasNode q b → into = .bn b)
+
+theorem remapping_one_injective_renaming (p : Parser) (c : CallOpts)
+    (hp : (loptsOf p c).pol = .remap) (hs : (loptsOf p c).sk = false) :
+    Statement_labels_one_injective_renaming p c := by
+  intro d into doc hw hi
+  rw [parseWith_eq, genOf_eq]
+  obtain ⟨_, hq, _, hd, hm, _⟩ := parseO_facts (loptsOf p c) d [] into doc (mapInv_init d.fresh)
+  have key : ∀ l, Doc.has (keptDoc (loptsOf p c).gen doc) l →
+      alookup (parseO (loptsOf p c) d [] into doc).2 l
+        = some (sigma (loptsOf p c).pol (parseO (loptsOf p c) d [] into doc).2 l) := by
+    rintro l ⟨q, hqk, hl⟩
+    have := hd q hqk l hl
+    rw [hp] at this ⊢
+    cases l <;> simp only [Def] at this <;> obtain ⟨b, hb⟩ := this <;> simp only [sigma, hb, Option.getD_some]
+  refine ⟨sigma (loptsOf p c).pol (parseO (loptsOf p c) d [] into doc).2, ?_, ?_, ?_⟩
+  · intro l l' hl hl' e
+    have h1 := key l hl
+    have h2 := key l' hl'
+    rw [← e] at h2
+    exact hm.inj l l' _ h1 h2
+  · intro l hl
+    have hr := (hm.range l _ (key l hl)).1
+    exact ⟨fun hn => absurd (hw _ hn) (Nat.not_lt.mpr hr), fun e => absurd (hi _ e) (Nat.not_lt.mpr hr)⟩
+  · intro x
+    rw [hq x, List.mem_append, renameO_nosk hs]
+
+theorem nt_labels_one_injective_renaming : Statement_labels_one_injective_renaming .nt CallOpts.default :=
+  remapping_one_injective_renaming _ _ rfl rfl
+theorem nquads_labels_one_injective_renaming : Statement_labels_one_injective_renaming .nquads CallOpts.default :=
+  remapping_one_injective_renaming _ _ rfl rfl
+theorem turtle_labels_one_injective_renaming : ∀ c, Statement_labels_one_injective_renaming .turtle c :=
+  fun c => remapping_one_injective_renaming _ c rfl rfl
+theorem n3_labels_one_injective_renaming : ∀ c, Statement_labels_one_injective_renaming .n3 c :=
+  fun c => remapping_one_injective_renaming _ c rfl rfl
+theorem trig_labels_one_injective_renaming : ∀ c, Statement_labels_one_injective_renaming .trig c :=
+  fun c => remapping_one_injective_renaming _ c rfl rfl
+theorem xml_labels_one_injective_renaming : Statement_labels_one_injective_renaming .xml CallOpts.default :=
+  remapping_one_injective_renaming _ _ rfl rfl
+theorem trix_labels_one_injective_renaming : Statement_labels_one_injective_renaming .trix CallOpts.default :=
+  remapping_one_injective_renaming _ _ rfl rfl
+/-- JSON-LD, `generalized_rdf` on or off (off: the merge is with the document minus its blank-node-predicate statements) -/
+theorem jsonld_labels_one_injective_renaming :
+    ∀ gen, Statement_labels_one_injective_renaming .jsonld ⟨false, false, gen⟩ :=
+  fun gen => remapping_one_injective_renaming _ ⟨false, false, gen⟩ rfl rfl
+
+/-- hextuples is the `BNode(label)` parser of `Model.lean` … -/
+theorem hext_is_verbatim (d : DS) (into : T) (doc : Doc) :
+    (parseWith .hext CallOpts.default d [] into doc).1 = parseInto d .verbatim into doc := by
+  rw [parseWith_eq]
+  simp only [parseO, loptsOf, CallOpts.default, emitO_plain, parseInto, parseDoc]
+
+/-- … so the statement fails for it (known finding C12-K1) -/
+theorem hext_labels_one_injective_renaming_witness :
+    ¬ Statement_labels_one_injective_renaming .hext CallOpts.default := by
+  intro h
+  apply verbatim_not_merge
+  intro pol d into doc hw hi
+  cases pol with
+  | remap => exact parse_is_merge .remap d into doc rfl hw hi
+  | verbatim =>
+    have := h d into doc hw hi
+    rw [hext_is_verbatim] at this
+    simpa [genOf, keptDoc_true] using this
+
+theorem parse_only_adds_every_parser : Statement_parse_only_adds_every_parser := by
+  intro p c d m0 f0 into doc hm
+  rw [parseWith_eq]
+  obtain ⟨_, hq, _, _, _, _⟩ := parseO_facts (loptsOf p c) d m0 into doc hm
+  exact ⟨fun q h => (hq q).mpr (Or.inl h), _, fun q h => (hq q).mp h⟩
+
+theorem wf_preserved_every_parser : Statement_wf_preserved_every_parser := by
+  intro p c d m0 f0 into doc hm hw hi
+  rw [parseWith_eq]
+  exact wf_parseO _ d m0 into doc hm hw hi
+
+theorem caller_shared_context_shares_exactly : Statement_caller_shared_context_shares_exactly := by
+  intro d ctx f0 docs hw hm hi
+  have hn : NewAbove ctx d.fresh ⟨d.fresh, ctx⟩ := ⟨Nat.le_refl _, fun l b h => Or.inl h⟩
+  obtain ⟨_, _, a3, a4, a5, a6, a7⟩ := parseShared_facts ⟨.remap, false, true⟩ ctx d.fresh docs d ctx hw hm hn hi
+  have key : ∀ l, HasAny docs l →
+      alookup (parseShared ⟨.remap, false, true⟩ d ctx docs).2 l
+        = some (sigma .remap (parseShared ⟨.remap, false, true⟩ d ctx docs).2 l) := by
+    rintro l ⟨x, hx, q, hqd, hl⟩
+    have := a6 x hx q (by rw [keptDoc_true]; exact hqd) l hl
+    cases l <;> simp only [Def] at this <;> obtain ⟨b, hb⟩ := this <;> simp only [sigma, hb, Option.getD_some]
+  refine ⟨sigma .remap (parseShared ⟨.remap, false, true⟩ d ctx docs).2, ?_, ?_, ?_, ?_, key⟩
+  · intro l b hb
+    have := a5 l b hb
+    cases l <;> simp only [sigma, this, Option.getD_some]
+  · intro l l' hl hl' e
+    have h1 := key l hl
+    have h2 := key l' hl'
+    rw [← e] at h2
+    exact a3.inj l l' _ h1 h2
+  · intro l hl hnone
+    have hr : d.fresh ≤ sigma .remap (parseShared ⟨.remap, false, true⟩ d ctx docs).2 l := by
+      rcases a4.2 l _ (key l hl) with h | h
+      · rw [hnone] at h; cases h
+      · exact h
+    exact ⟨fun hnode => absurd (hw _ hnode) (Nat.not_lt.mpr hr),
+           fun x hx e => absurd (hi x hx _ e) (Nat.not_lt.mpr hr)⟩
+  · intro y
+    rw [a7 y, List.mem_append, List.mem_flatMap]
+    constructor
+    · rintro (h | ⟨x, hx, h⟩)
+      · exact Or.inl h
+      · rw [renameO_nosk rfl, keptDoc_true] at h; exact Or.inr ⟨x, hx, h⟩
+    · rintro (h | ⟨x, hx, h⟩)
+      · exact Or.inl h
+      · refine Or.inr ⟨x, hx, ?_⟩
+        rw [renameO_nosk rfl, keptDoc_true]; exact h
+
+theorem preserve_bnode_ids_is_verbatim : Statement_preserve_bnode_ids_is_verbatim := by
+  intro p c d into doc hp hc
+  rw [parseWith_eq]
+  obtain ⟨sk, pre, gen⟩ := c
+  simp only at hc
+  subst hc
+  rcases hp with rfl | rfl <;>
+    simp only [parseO, loptsOf, if_true, emitO_plain, parseInto, parseDoc]
+
+theorem skolemize_no_blank_nodes : Statement_skolemize_no_blank_nodes := by
+  intro p c d into doc hp hc
+  have hpol : (loptsOf p c).pol = .verbatim ∧ (loptsOf p c).sk = true := by
+    obtain ⟨sk, pre, gen⟩ := c
+    simp only at hc
+    subst hc
+    rcases hp with rfl | rfl | rfl | rfl <;> exact ⟨rfl, rfl⟩
+  rw [parseWith_eq]
+  obtain ⟨_, hq, _, _, _, _⟩ := parseO_facts (loptsOf p c) d [] into doc (mapInv_init d.fresh)
+  refine ⟨sigma (loptsOf p c).pol (parseO (loptsOf p c) d [] into doc).2, ?_, hq, ?_⟩
+  · intro n; rw [hpol.1]; rfl
+  · intro q b hqr hn
+    obtain ⟨dq, _, rfl⟩ := List.mem_map.mp hqr
+    exact hasNode_qrenO_sk hpol.2 hn
+
+/-- two calls that hand on one dict give `_:b0` ONE node (contrast `remap_two_nodes`) — and it is a new one -/
+theorem shared_context_one_node :
+    (parseShared ⟨.remap, false, true⟩ ⟨[], 1⟩ [] [(.iri 0, docB0), (.iri 0, docB0)]).1.quads
+      = [(.bn 1, .iri 1, .iri 2, .iri 0)] := by decide
+
+/-- JSON-LD without `generalized_rdf`: the statement with the blank-node predicate is gone, the others are merged in -/
+theorem jsonld_drops_bnode_predicate :
+    (parseWith .jsonld ⟨false, false, false⟩ ⟨[], 1⟩ [] (.iri 0)
+        [(.lab (.named 0), .lab (.named 1), .iri 2, none), (.lab (.named 0), .iri 1, .lab (.named 1), none)]).1.quads
+      = [(.bn 1, .iri 1, .bn 2, .iri 0)] := by decide
+
+/-- `skolemize=True`: `_:b0 <p> <o>` becomes a statement about the IRI genid/b0 -/
+theorem skolemize_example :
+    (parseWith .nt ⟨true, false, false⟩ ⟨[], 1⟩ [] (.iri 0) docB0).1.quads = [(.skol 0, .iri 1, .iri 2, .iri 0)] := by
+  decide
+
+
+
+/-- where the new quads go: into the graph parsed into, or into a graph the document itself names (an IRI, or one of
+    its labels under the same assignment) — no third graph of the dataset is touched -/
+def Statement_new_quads_in_target_or_named_graph : Prop :=
+  ∀ (p : Parser) (c : CallOpts) (d : DS) (m0 : LMap) (f0 : Nat) (into : T) (doc : Doc), MapInv f0 ⟨d.fresh, m0⟩ →
+    ∃ σ : Lbl → Nat, ∀ q, q ∈ (parseWith p c d m0 into doc).1.quads → q ∈ d.quads ∨ q.2.2.2 = into ∨
+      ∃ dq ∈ doc, ∃ g, dq.2.2.2 = some g ∧ q.2.2.2 = trenO (loptsOf p c) σ g
+
+theorem new_quads_in_target_or_named_graph : Statement_new_quads_in_target_or_named_graph := by
+  intro p c d m0 f0 into doc hm
+  rw [parseWith_eq]
+  obtain ⟨_, hq, _, _, _, _⟩ := parseO_facts (loptsOf p c) d m0 into doc hm
+  refine ⟨sigma (loptsOf p c).pol (parseO (loptsOf p c) d m0 into doc).2, fun q h => ?_⟩
+  rcases (hq q).mp h with h | h
+  · exact Or.inl h
+  · simp only [renameO] at h
+    obtain ⟨dq, hdq, rfl⟩ := List.mem_map.mp h
+    have hdoc : dq ∈ doc := (List.mem_filter.mp hdq).1
+    obtain ⟨a, b, c', g⟩ := dq
+    cases g with
+    | none => exact Or.inr (Or.inl rfl)
+    | some t => exact Or.inr (Or.inr ⟨_, hdoc, t, rfl, rfl⟩)
+
+/-! ### Round g — Notation3 / Turtle / TriG: `_:x` scoping with formulae (`Parsers.n3Run`) -/
+
+/-- The N3-family parser as coded — a *stack* of `_anonymousNodes` dicts, pushed and emptied at `{`, popped at `}`,
+    plus the nodes the recursive descent holds (`[]`, `( )`, paths, formula nodes) — computes exactly what the
+    generic one-dict parser computes on the scope-resolved document, in which every `_:x` written inside a
+    formula is qualified with that formula occurrence (`resolve`). -/
+def Statement_n3_formula_scopes : Prop :=
+  ∀ (d : DS) (into : T) (evs : List Ev), EvOK evs →
+    parseN3 d into evs = parseInto d .remap into (resolve RS.init evs)
+
+/-- … hence: ONE injective renaming of the *scoped* labels to nodes that are not in the old content.  `_:x` in a
+    formula, `_:x` outside it and `_:x` in another formula are three nodes; `_:x` before and after a formula is one
+    node; inside one formula it is one node. -/
+def Statement_n3_scoped_labels_one_injective_renaming : Prop :=
+  ∀ (d : DS) (into : T) (evs : List Ev), EvOK evs → WF d → IntoOK d into →
+    IsMerge d into (resolve RS.init evs) (parseN3 d into evs).quads
+
+/-- without formulae the stack machine is the N3-family parser of `parseWith` (Turtle, TriG — any number of graph
+    blocks — and N3 documents without `{ }`) -/
+def Statement_n3_without_formulae : Prop :=
+  ∀ (p : Parser) (c : CallOpts) (d : DS) (into : T) (doc : Doc), (p = .turtle ∨ p = .n3 ∨ p = .trig) →
+    (∀ q ∈ doc, QOK q) → parseN3 d into (doc.map Ev.stmt) = (parseWith p c d [] into doc).1
+
+theorem n3_formula_scopes : Statement_n3_formula_scopes :=
+  fun d into evs h => parseN3_eq d into evs h
+
+theorem n3_scoped_labels_one_injective_renaming : Statement_n3_scoped_labels_one_injective_renaming := by
+  intro d into evs h hw hi
+  rw [parseN3_eq d into evs h]
+  exact parse_is_merge .remap d into _ rfl hw hi
+
+theorem n3_without_formulae : Statement_n3_without_formulae := by
+  intro p c d into doc hp hq
+  have hok : EvOK (doc.map Ev.stmt) := by
+    intro q hm
+    obtain ⟨q', hq', e⟩ := List.mem_map.mp hm
+    injection e with e
+    subst e
+    exact hq q' hq'
+  rw [parseN3_eq d into _ hok, resolve_init_stmts, parseWith_eq]
+  rcases hp with rfl | rfl | rfl <;>
+    simp only [parseO, loptsOf, emitO_plain, parseInto, parseDoc]
+
+/-- `}` gives back exactly the dict that was there at `{` -/
+theorem n3_close_restores (s : N3S) : n3Close (n3Open s) = s := rfl
+
+/-- `_:x <1> <2> .  { _:x <1> <2> } <3> <2> .  _:x <4> <2> .` — the inner `_:x` is its own node (2), the outer one
+    is the same node (1) before and after the formula, the formula's node is 3 -/
+theorem n3_scopes_example :
+    (parseN3 ⟨[], 1⟩ (.iri 0)
+      [.stmt (.lab (.named 0), .iri 1, .iri 2, none), .opn,
+       .stmt (.lab (.named 0), .iri 1, .iri 2, some (.lab (.anon 0))), .cls,
+       .stmt (.lab (.anon 0), .iri 3, .iri 2, none), .stmt (.lab (.named 0), .iri 4, .iri 2, none)]).quads
+      = [(.bn 1, .iri 1, .iri 2, .iri 0), (.bn 2, .iri 1, .iri 2, .bn 3), (.bn 3, .iri 3, .iri 2, .iri 0),
+         (.bn 1, .iri 4, .iri 2, .iri 0)] := by decide
+
 /-! ### Non-vacuity -/
 
 /-- the hypotheses are met by a target with content, a blank-node-named graph to parse into, and a
@@ -269,5 +562,51 @@ example :
   · intro b hb; cases hb; decide
   · exact ⟨_, List.mem_cons_self, Or.inl rfl⟩
   · exact ⟨_, List.mem_cons_self, Or.inl rfl⟩
+
+/-- round g: the hypotheses of `caller_shared_context_shares_exactly` are met by a target with content and a dict the
+    caller filled with an existing node (`_:b0` ↦ node 3): the two documents then talk about node 3 and share `_:b1` -/
+example :
+    let d : DS := ⟨[(.bn 3, .iri 1, .bn 4, .iri 0)], 10⟩
+    let ctx : LMap := [(.named 0, 3)]
+    let doc : Doc := [(.lab (.named 0), .iri 2, .lab (.named 1), none)]
+    WF d ∧ MapInv 0 ⟨d.fresh, ctx⟩ ∧ IntoOK d (.iri 0) ∧
+    (parseShared ⟨.remap, false, true⟩ d ctx [(.iri 0, doc), (.iri 5, doc)]).1.quads =
+      [(.bn 3, .iri 1, .bn 4, .iri 0), (.bn 3, .iri 2, .bn 10, .iri 0), (.bn 3, .iri 2, .bn 10, .iri 5)] ∧
+    (parseShared ⟨.remap, false, true⟩ d ctx [(.iri 0, doc), (.iri 5, doc)]).2 = [(.named 1, 10), (.named 0, 3)] := by
+  refine ⟨?_, ⟨Nat.zero_le _, ?_, ?_⟩, (fun b hb => by cases hb), by decide, by decide⟩
+  · intro b ⟨q, hq, hn⟩
+    simp only [List.mem_cons, List.not_mem_nil, or_false] at hq
+    subst hq
+    simp only [Quad.hasNode] at hn
+    rcases hn with hn | hn | hn | hn <;> cases hn <;> decide
+  · intro l b h
+    simp only [alookup] at h
+    split at h
+    · cases h; exact ⟨Nat.zero_le _, by decide⟩
+    · cases h
+  · intro l l' b h h'
+    simp only [alookup] at h h'
+    split at h <;> split at h'
+    · next e1 e2 => rw [← e1, ← e2]
+    · cases h'
+    · cases h
+    · cases h
+
+/-- round g: `EvOK` holds for a document with a label inside and outside a formula -/
+example : EvOK [.stmt (.lab (.named 0), .iri 1, .iri 2, none), .opn,
+                .stmt (.lab (.named 0), .iri 1, .iri 2, some (.lab (.anon 0))), .cls] := by
+  intro q hq
+  simp only [List.mem_cons, List.not_mem_nil, or_false, reduceCtorEq, false_or, Ev.stmt.injEq] at hq
+  rcases hq with rfl | rfl
+  · refine ⟨?_, ?_, ?_, ?_⟩
+    · intro l hl a b e; cases hl; cases e
+    · intro l hl; cases hl
+    · intro l hl; cases hl
+    · intro g hg; cases hg
+  · refine ⟨?_, ?_, ?_, ?_⟩
+    · intro l hl a b e; cases hl; cases e
+    · intro l hl; cases hl
+    · intro l hl; cases hl
+    · intro g hg l hl a b e; cases hg; cases hl; cases e
 
 end RV.C12
